@@ -7,6 +7,7 @@ import JunoModel.C07.ModelAccess
 import JunoModel.C07.ModelBin
 import JunoModel.C07.ModelChain
 import JunoModel.C07.ModelPrune
+import JunoModel.C07.ModelLayout
 /-! Line-protocol driver for the C07 model (`lake build c07drv`).
 
 Requests (hex = lower-case hex, `-` = empty byte string):
@@ -58,6 +59,15 @@ Round 4 — the store (the driver keeps a key/value store between requests):
   s.txbyhash <hash>         GetTransactionByHash (item bytes)                  → `ok <hex>` | …
   s.rcbyhash <mode> <hash>  Blockchain.Receipt: item bytes, block hash, number → `ok <hex> <hash> <n>` | …
   s.hdrbyhash <hash> / s.subyhash <hash> / s.l1 <msghash>                      → `ok <hex>` | `none`
+
+Round 5 — prefix scans, the per-transaction layout of earlier binaries, the block-transactions migration:
+  ub <hex>                  dbutils.UpperBound                                 → `ok <hex>` | `none`
+  s.scan <prefix>           PrefixedBucket.scan: live entries under the prefix, in key order → `ok <n> <key>:<len>:<cksum>,…`
+  s.old.items <bucket> <n>  values of Prefix().Add(n).Scan (bucket 10 / 11)    → `ok <k> <hex>*`
+  s.old.get <bucket> <n> <i>  TransactionLayoutPerTx.…ByBlockAndIndex (stored bytes) → `ok <hex>` | `none`
+  s.putold <mode> <num> <ntx> <nrc> <hex>*   TransactionLayoutPerTx.WriteTransactionsAndReceipts (hash index derived
+                            from the transactions)                             → `ok` | `err` | `panic`
+  s.btmigrate <mode> <fuel> blocktransactions.Migrator.Migrate on the block-record buckets → `ok` | `notfound` | `err` | `panic`
 
 Value syntax (prefix form, space separated):
   n | _ | u<dec> | T | F | s<hex> | b<hex> | f<hex>,<hex>,<hex>,<hex> | r<hex of the item's CBOR>
@@ -246,6 +256,14 @@ def showBlock (r : Res (Bytes × List Bytes × List Bytes)) : String :=
 
 def showValList (vs : List GoVal) : String := " ".intercalate (vs.map showValue)
 
+/-- `tx.Hash()` of every stored transaction (by-value hash projection), as 32-byte keys. -/
+def hashesOf (cfg : DecCfg) : List Bytes → Option (List Bytes)
+  | [] => some []
+  | b :: bs =>
+    match getTransactionHash cfg b, hashesOf cfg bs with
+    | some (.felt x y z w), some hs => some (feltBytes x y z w :: hs)
+    | _, _ => none
+
 def step (s : Store) (line : String) : Store × String :=
   match words line with
   | ["s.reset"] => ([], "ok")
@@ -281,6 +299,40 @@ def step (s : Store) (line : String) : Store × String :=
     | some cfg, some fl, some ht, some l1 =>
       showStoreRes (hpMigrate (fullHeaderHash cfg) (stateUpdateHash cfg) (txKeysTyped cfg l1) s fl ht) s
     | _, _, _, _ => (s, "bad-op")
+  | ["ub", h] =>
+    match hexToBytes? h with
+    | some p => (s, match upperBound p with | some u => "ok " ++ bytesToHex u | none => "none")
+    | none => (s, "bad-op")
+  | ["s.scan", h] =>
+    match hexToBytes? h with
+    | some p =>
+      let es := s.scan p
+      (s, "ok " ++ toString es.length ++ " " ++ ",".intercalate (es.map (fun e =>
+        bytesToHex e.1 ++ ":" ++ toString e.2.length ++ ":" ++ toString (cksum e.2))))
+    | none => (s, "bad-op")
+  | ["s.old.items", b, n] =>
+    match b.toNat?, n.toNat? with
+    | some b, some n =>
+      let vs := scanBlockValues s b n
+      (s, " ".intercalate (["ok", toString vs.length] ++ vs.map bytesToHex))
+    | _, _ => (s, "bad-op")
+  | ["s.old.get", b, n, i] =>
+    match b.toNat?, n.toNat?, i.toNat? with
+    | some b, some n, some i => (s, match getPerTxItem s b n i with | some v => "ok " ++ bytesToHex v | none => "none")
+    | _, _, _ => (s, "bad-op")
+  | "s.putold" :: mode :: num :: ntx :: nrc :: items =>
+    match cfgOf? mode, num.toNat?, ntx.toNat?, nrc.toNat?, hexAll? items with
+    | some cfg, some n, some nt, some nr, some bs =>
+      if bs.length = nt + nr then
+        match hashesOf cfg (bs.take nt) with
+        | some hs => showStoreRes (writePerTx s n hs (bs.take nt) (bs.drop nt)) s
+        | none => (s, "err")
+      else (s, "bad-op")
+    | _, _, _, _, _ => (s, "bad-op")
+  | ["s.btmigrate", mode, fuel] =>
+    match cfgOf? mode, fuel.toNat? with
+    | some cfg, some fuel => showStoreRes (btMigrate (fullHeaderTxCount cfg) (projHeaderTxCount cfg) s fuel) s
+    | _, _ => (s, "bad-op")
   | ["s.digest"] => (s, digest s)
   | ["s.get", k] =>
     match hexToBytes? k with
